@@ -33,15 +33,16 @@ def configs(tier):
     # |frames| x |distinct packets| x endpoint states: the alphabet is split over configurations (every frame value, every
     # corruption kind and every kind of side traffic occurs in several of them, always together with frame repeats).
     t = lambda gap, pace, ready, frames, bad, side: dict(gap=gap, pace=pace, ready=ready, frames=frames, bad=bad, side=side)
-    cs = [t(1, 1, 1, [0, 1, 0x7FF], ["crc1", "short"], ["in+ack", "in"]),
-          t(1, 1, 1, [2, 0x3FF, 0x7FE], ["crc7fe", "pid", "long"], ["in+ack"]),
+    cs = [t(1, 1, 1, [0, 1, 2, 0x7FF], ["crc1", "short"], ["in+ack", "in"]),
+          t(1, 1, 1, [2, 0x3FF, 0x7FE, 0x7FF], ["crc7fe", "pid", "long"], ["in+ack"]),
           t(1, 1, 1, [0, 0x7FE, 0x7FF], ["crc7fe", "long"], ["out0", "out1sof"]),
           t(3, 1, 2, [1, 2, 0x3FF], ["pid", "crc1"], ["ack", "tok-other", "in"]),
           t(2, 8, 8, [0, 1, 0x7FF], ["crc1", "short"], ["in+ack"]),
-          t(2, 8, 1, [0x7FE, 0x7FF, 0], ["long"], ["out0", "tok-other"])]
+          t(2, 8, 1, [0x7FE, 0x7FF, 0], ["long"], ["out0", "tok-other"]),
+          t(1, 1, 1, list(FRAMES), ["crc1", "crc7fe", "pid", "short", "long"], []),
+          t(1, 2, 3, [0, 1, 0x7FF], ["crc1"], ["in+ack", "out0"])]
     if tier == "thorough":
-        cs += [t(1, 1, 1, list(FRAMES), ["crc1", "crc7fe", "pid", "short", "long"], []),
-               t(1, 1, 1, [0, 1, 2, 0x7FF], ["crc1"], ["in+ack", "in", "out0"]),
+        cs += [t(1, 1, 1, [0, 1, 2, 0x7FF], ["crc1"], ["in+ack", "in", "out0"]),
                t(1, 2, 3, [0x3FF, 0x7FE, 0x7FF, 0], ["crc7fe", "short"], ["in+ack", "out1sof", "ack"]),
                t(8, 1, 1, [0, 1, 0x7FF], ["pid", "long"], ["in+ack", "in", "out0", "tok-other"]),
                t(5, 3, 2, [2, 0x3FF, 0x7FE], ["crc7fe", "short"], ["in", "out0", "ack"]),
@@ -55,7 +56,7 @@ class FrameSpec(Spec):
 
     def __init__(self, cfg, tier):
         super().__init__(cfg, tier)
-        self.time_budget = 60 if tier == "quick" else 800
+        self.time_budget = 240 if tier == "quick" else 850     # safety net only: the closures are small
         self.host = Host(gap=cfg["gap"], pace=cfg["pace"], ready_period=cfg["ready"],
                          extra=dict(connect=1, in_valid=1, in_payload=0x5A, out_ready=1))
         acts = [("sof", n) for n in cfg["frames"]]
